@@ -76,7 +76,7 @@ def run_fd(c):
     d = tempfile.mkdtemp(prefix='c15_', dir=os.environ.get('VERIF_SCRATCH', None))
     try:
         inp = os.path.join(d, 'in.csv')
-        joinp = os.path.join(d, 'b.csv')
+        joinp = os.path.join(d, 'jt.csv')
         outp = os.path.join(d, 'out.csv')
         with open(inp, 'wb') as f:
             f.write(bytes(c['input']))
